@@ -41,6 +41,7 @@ func runC16(r *Run) {
 			args = append(args, schedArg{Scenario: "commit", Hist: 1, Relaxed: relaxed, Workers: wk, Variant: 1, Bounds: schedBounds{Preempt: pre}, Budget: budget})
 			args = append(args, schedArg{Scenario: "commit", Hist: 1, Relaxed: relaxed, Workers: wk, Variant: 2, Bounds: schedBounds{Preempt: pre}, Budget: budget})
 			args = append(args, schedArg{Scenario: "commit", Hist: 6, Relaxed: relaxed, Workers: wk, Variant: 2, Bounds: schedBounds{Preempt: pre}, Budget: budget})
+			args = append(args, schedArg{Scenario: "commit", Hist: 1, Relaxed: relaxed, Workers: wk, Variant: 3, Bounds: schedBounds{Preempt: pre}, Budget: budget})
 		}
 	}
 	for _, wk := range []int{2, 3} {
@@ -135,6 +136,14 @@ func runC04(r *Run) {
 	}
 	r.RunTaskGroup("array index shifting under all map orders", "sched", args)
 	reportBounds(r, pre)
+	// object-pool reuse across encodes of very different sizes: a collision-group slab far beyond 64 KiB goes through
+	// the pooled buffers, then further slabs are encoded with whatever the pool hands back (LIFO shim: the same
+	// buffer at once); every register must still decode, re-encode identically and hold the model's content
+	var big []any
+	for shape := 0; shape < 3; shape++ {
+		big = append(big, collDeepArg{T: 1024, Shape: shape, N: 258, Big: true})
+	}
+	r.RunTaskGroup("pooled buffers after a > 64 KiB slab (collision group of 258 keys x 400-byte values)", "colldeep", big)
 	crossProcess(r)
 }
 
